@@ -46,10 +46,14 @@ def gen_case(rng):
     return {"tree": fstree.spec_json(spec), "after": fstree.spec_json(after), "log": log, "exclude": excl}
 
 
-def impl_dir(path, excl):
+def impl_dir(path, excl, lstrip=None):
     import in_toto.runlib as rl
     try:
-        r = rl.record_artifacts_as_dict(["dir:" + path], exclude_patterns=excl)
+        r = rl.record_artifacts_as_dict(["dir:" + path], exclude_patterns=excl, lstrip_paths=lstrip)
+        if lstrip:
+            # the prefix list applies to the recorded NAME only, never to the lines inside the digest
+            (k, v), = r.items()
+            return {"ok": v["sha256"], "keys": ["dir:d"] if k in ("dir:" + path, "dir:" + path[len(lstrip[0]):]) else [k]}
         return {"ok": r["dir:" + path]["sha256"], "keys": sorted(r)}
     except Exception as e:  # noqa
         return {"err": "Crash:" + type(e).__name__}
@@ -70,7 +74,19 @@ def run(ctx):
             for tag, key in (("t0", "tree"), ("t1", "after")):
                 fstree.materialize(fstree.spec_from_json(c[key]), os.path.join(root, tag, "d"))
                 with fstree.in_dir(os.path.join(root, tag)):
-                    out = impl_dir("d", c["exclude"])
+                    # every third case passes a prefix list whose entries also occur INSIDE the directory
+                    inner = sorted(k for k, v in c[key].items() if v[0] == "d")
+                    ls = ([inner[0] + "/", "zz-none/"] if inner else ["d/"]) if len(meta) % 3 == 0 else None
+                    if len(meta) % 4 == 1:
+                        # history: a recording that FAILS under a base path comes first; the digest of the relative
+                        # dir: path asked for next must not depend on it (process state restored)
+                        import in_toto.runlib as _rl
+                        os.makedirs("elsewhere", exist_ok=True)
+                        try:
+                            _rl.record_artifacts_as_dict(["ostree:no-such-ref"], base_path="elsewhere")
+                        except Exception:  # noqa
+                            pass
+                    out = impl_dir("d", c["exclude"], ls)
                     files = listing("d", c["exclude"] or default_excl)
                 ctx.rng.shuffle(files)
                 reqs.append(("dir_text", {"files": files}))
@@ -82,7 +98,10 @@ def run(ctx):
         h = "".join(ctx.rng.choice("0123456789abcdef") for _ in range(64))
         ref = ctx.rng.choice(["main", "a/b", "exampleos/x86_64/standard", "é", "x.y"])
         content = ctx.rng.choice(["", "\n", "\n\n"]) + h + ctx.rng.choice(["\n", "", "\n\n"])
-        blob = bytes(ctx.rng.randrange(256) for _ in range(ctx.rng.randrange(0, 200)))
+        # commit objects of every size class: tiny, around one I/O chunk (4096 / 8192 bytes), and large;
+        # carriage returns included (the object is hashed as raw bytes)
+        size = ctx.rng.choice([ctx.rng.randrange(0, 200), 4095, 4096, 4097, 8192, 8193, ctx.rng.randrange(9000, 70000)])
+        blob = bytes(ctx.rng.choice(b"\r\n\x00ab\xff") if ctx.rng.random() < 0.3 else ctx.rng.randrange(256) for _ in range(size))
         ost.append({"ref": ref, "content": content, "blob": blob.decode("latin-1"), "use_base": ctx.rng.random() < 0.5})
     import in_toto.runlib as rl
     ost_impl = []
